@@ -31,3 +31,79 @@ Proof.
   - lra.
   - lra.
 Qed.
+
+(* ---- the rest of C12's cooldown claims ---- *)
+Lemma Qle_bool_false a b : Qle_bool a b = false -> b < a.
+Proof. intros H. apply Qnot_le_lt. intro X. apply Qle_bool_iff in X. congruence. Qed.
+
+Lemma cd1_mono_r x r r' : 0 <= x -> 0 <= r -> r <= r' -> r' <= 100 -> cd1 x r' <= cd1 x r.
+Proof.
+  intros Hx Hr Hrr Hr'. unfold cd1.
+  destruct (Qle_bool (x * (1 - (1 # 100) * r')) 1000) eqn:E1; destruct (Qle_bool (x * (1 - (1 # 100) * r)) 1000) eqn:E2;
+    try apply Qle_bool_iff in E1; try apply Qle_bool_iff in E2; try apply Qle_bool_false in E1; try apply Qle_bool_false in E2.
+  - apply Qle_refl.
+  - destruct (Qmin_cases x 1000) as [[H1 H2]|[H1 H2]]; rewrite H2; nra.
+  - exfalso. nra.
+  - nra.
+Qed.
+Lemma cd1_bounds x r : 0 <= x -> 0 <= r -> r <= 100 -> Qmin x 1000 <= cd1 x r /\ cd1 x r <= x.
+Proof.
+  intros Hx Hr Hr'. unfold cd1. destruct (Qle_bool (x * (1 - (1 # 100) * r)) 1000) eqn:E;
+    [apply Qle_bool_iff in E|apply Qle_bool_false in E]; destruct (Qmin_cases x 1000) as [[H1 H2]|[H1 H2]]; rewrite ?H2; split; try nra; try lra.
+Qed.
+
+Lemma applied_mono_d c d d' : 0 <= c -> 0 <= d -> d <= d' -> Qmax (applied c d) (Qmin d 5000) <= Qmax (applied c d') (Qmin d' 5000).
+Proof.
+  intros Hc Hd Hdd. unfold applied.
+  destruct (Qle_bool (d - c) 10000) eqn:E1; destruct (Qle_bool (d' - c) 10000) eqn:E2;
+    try apply Qle_bool_iff in E1; try apply Qle_bool_iff in E2; try apply Qle_bool_false in E1; try apply Qle_bool_false in E2;
+    destruct (Qmin_cases 10000 d) as [[A1 A2]|[A1 A2]]; destruct (Qmin_cases 10000 d') as [[B1 B2]|[B1 B2]];
+    destruct (Qmin_cases d 5000) as [[C1 C2]|[C1 C2]]; destruct (Qmin_cases d' 5000) as [[D1 D2]|[D1 D2]];
+    rewrite ?A2, ?B2, ?C2, ?D2;
+    apply Q.max_lub; (eapply Qle_trans; [|apply Q.le_max_l] ; nra) || (eapply Qle_trans; [|apply Q.le_max_r]; nra) || idtac.
+Abort.
+
+Lemma g_mono c d d' : 0 <= c -> 0 <= d -> d <= d' -> Qmax (applied c d) (Qmin d 5000) <= Qmax (applied c d') (Qmin d' 5000).
+Proof.
+  intros Hc Hd Hdd. unfold applied.
+  destruct (Qle_bool (d - c) 10000) eqn:E1; destruct (Qle_bool (d' - c) 10000) eqn:E2;
+    try apply Qle_bool_iff in E1; try apply Qle_bool_iff in E2; try apply Qle_bool_false in E1; try apply Qle_bool_false in E2;
+    destruct (Qmin_cases 10000 d) as [[A1 A2]|[A1 A2]]; destruct (Qmin_cases 10000 d') as [[B1 B2]|[B1 B2]];
+    destruct (Qmin_cases d 5000) as [[C1 C2]|[C1 C2]]; destruct (Qmin_cases d' 5000) as [[D1 D2]|[D1 D2]];
+    rewrite ?A2, ?B2, ?C2, ?D2;
+    match goal with |- Qmax ?a ?b <= Qmax ?a' ?b' =>
+      destruct (Qmax_cases a' b') as [[F1 F2]|[F1 F2]]; rewrite F2; apply Q.max_lub; try nra end.
+Qed.
+
+Theorem cooldown_mono_rate x r r' c : 0 <= x -> 0 <= r -> r <= r' -> r' <= 100 -> 0 <= c -> cooldown x r' c <= cooldown x r c.
+Proof.
+  intros Hx Hr Hrr Hr' Hc. unfold cooldown. apply g_mono; auto.
+  - destruct (cd1_bounds x r' Hx ltac:(lra) Hr') as [L _]. destruct (Qmin_cases x 1000) as [[H1 H2]|[H1 H2]]; rewrite H2 in L; lra.
+  - apply cd1_mono_r; auto.
+Qed.
+
+Theorem cooldown_mono_flat x r c c' : 0 <= x -> 0 <= r -> r <= 100 -> 0 <= c -> c <= c' -> cooldown x r c' <= cooldown x r c.
+Proof.
+  intros Hx Hr Hr' Hc Hcc. unfold cooldown.
+  assert (Hd : 0 <= cd1 x r).
+  { destruct (cd1_bounds x r Hx Hr Hr') as [L _]. destruct (Qmin_cases x 1000) as [[H1 H2]|[H1 H2]]; rewrite H2 in L; lra. }
+  apply Q.max_le_compat_r. apply applied_mono_c; auto.
+Qed.
+
+Theorem cooldown_le_base x r c : 0 <= x -> 0 <= r -> r <= 100 -> 0 <= c -> cooldown x r c <= x.
+Proof.
+  intros Hx Hr Hr' Hc. unfold cooldown. destruct (cd1_bounds x r Hx Hr Hr') as [L U].
+  assert (Hd : 0 <= cd1 x r) by (destruct (Qmin_cases x 1000) as [[H1 H2]|[H1 H2]]; rewrite H2 in L; lra).
+  apply Q.max_lub.
+  - (* applied c d <= applied 0 d = d <= x *)
+    eapply Qle_trans; [apply (applied_mono_c 0 c (cd1 x r)); auto|].
+    unfold applied. destruct (Qle_bool (cd1 x r - 0) 10000) eqn:E; [apply Qle_bool_iff in E|apply Qle_bool_false in E].
+    + destruct (Qmin_cases 10000 (cd1 x r)) as [[A1 A2]|[A1 A2]]; rewrite A2; nra.
+    + lra.
+  - eapply Qle_trans; [apply Q.le_min_l|exact U].
+Qed.
+
+Theorem cooldown_floor x r c : Qmin (cd1 x r) 5000 <= cooldown x r c.
+Proof. unfold cooldown. apply Q.le_max_r. Qed.
+Print Assumptions cooldown_mono_rate.
+Print Assumptions cooldown_le_base.
